@@ -70,6 +70,12 @@ pub fn soak(rep: &mut Report, p: &Params, regime: Regime, m: f64, steps: usize, 
             In::S(c)
         };
         let sampled = t <= 3000 || t % 997 == 0 || t == steps;
+        if t == 70_001 || t == 1_000_003 {
+            inst.perturb(1); // deserialize(serialize(self)): not a reset, accumulators carry over
+        }
+        if t == 140_001 {
+            inst.perturb(0);
+        }
         let r = rm.push_opt(&x, sampled);
         let out = match inst.feed(&x) {
             Ok(o) => o,
